@@ -120,7 +120,12 @@ template <int N, class T> static void division(pbt::Ctx& c) {
 	if (!(8 * det_eta<T>(rb) <= 0.5L)) { c.cls("entry bound vacuous (determinant cancellation)"); return; }
 	T d[4][4], d2[4][4], mv[4], vm[4];
 	X<N, N, T>(A / Bm, d);
-	{ auto A2 = A; A2 /= Bm; X<N, N, T>(A2, d2); }
+	{
+		auto A2 = A; auto* ret = &(A2 /= Bm); X<N, N, T>(A2, d2);
+		// compound operators return their left operand itself (chained forms such as (A /= B) *= C rely on it)
+		if (ret != &A2) c.failk("operator/=(mat)/returns-left-operand", "A /= B does not return a reference to A (N=%d)", N);
+		auto B4 = Bm; auto* ret2 = &(B4 /= s); if (ret2 != &B4) c.failk("operator/=(scalar)/returns-left-operand", "B /= s does not return a reference to B (N=%d)", N);
+	}
 	{ auto t1 = Bm / GV<N, T>(v); auto t2 = GV<N, T>(v) / Bm; for (int k = 0; k < N; ++k) { mv[k] = t1[k]; vm[k] = t2[k]; } }
 	R Ba = 0; for (int cc = 0; cc < N; ++cc) for (int k = 0; k < N; ++k) if (rabs((R)a[cc][k]) > Ba) Ba = rabs((R)a[cc][k]);
 	for (int k = 0; k < N; ++k) if (rabs((R)v[k]) > Ba) Ba = rabs((R)v[k]);
